@@ -340,7 +340,7 @@ fn unique_encoding(input: &[u8], family: &str, witness: &dyn Fn() -> Value) -> (
                 format!("{} bytes [{}] decode to {m:?}, which cannot be encoded again: {e}", input.len(), hex_head(input, 24)),
                 witness(),
             )
-            .cost(input.len() as u64)],
+            .cost(witness_cost(input))],
         );
     }
     if buf == input {
@@ -371,8 +371,14 @@ fn unique_encoding(input: &[u8], family: &str, witness: &dyn Fn() -> Value) -> (
             ),
             witness(),
         )
-        .cost(input.len() as u64)],
+        .cost(witness_cost(input))],
     )
+}
+
+/// Shorter inputs first; ties broken by content so that the reported witness does not depend on
+/// thread scheduling.
+fn witness_cost(input: &[u8]) -> u64 {
+    ((input.len() as u64) << 24) | (mcx::fnv64(input) & 0xff_ffff)
 }
 
 /// Message types put before the short byte strings: the seven valid ones and two invalid ones.
